@@ -1,9 +1,14 @@
+import MdkVerif.Generated
 /-
   Model.CrashCore — process death inside the mdk-core API calls (property C12, core level).
 
-  An API call is the ordered list of its storage effects AS RECORDED on the real code by `vh crashw`
-  (the model does not assume the order: the correspondence obligation is that the sequence of crash
-  classes observed along the ticks of a call equals `classes kind`, see `Driver/CrashCoreDrv.lean`).
+  An API call is the ordered list of its storage effects.  The list is NOT written here: it is TRANSLATED from
+  the current source on every run — `Generated.writeSeq` (tools/writeseq.py: entry point / case ↦ success
+  paths ↦ ordered durable write STEPS: storage-trait writes and persisting OpenMLS calls) — and `writes kind`
+  is that list with every step replaced by its effect on the projection (`effects`).  Three-way agreement:
+  source text ↔ this model (`hand_sequence_matches_source` in Props/C12.lean) ↔ execution (`vh crashw`
+  observes, tick by tick, which tables change and which crash class results: `tie:crashw-writeseq`,
+  `tie:crashcore-class-sequences`).
   None of these calls runs inside a transaction (only snapshot creation and restore do), so a crash after
   `k` effects leaves exactly the first `k` on disk (`crashAt`).  `retry` is what the application can do
   after reopening: hand the same event to `process_message` / `process_welcome` again.
@@ -29,6 +34,10 @@ structure Db where
   pwRow : Bool          -- (welcome) the processed-welcome record exists
   welcomeRow : Bool     -- (welcome) the welcome record exists
   ptr : Bool            -- the group record's last-message pointer names THE event's message
+  props : Nat := 0      -- proposals queued in the MLS proposal store by this call
+  mlsGroup : Bool := true   -- an MLS group of that id is stored (false before accept_welcome / create_group)
+  active : Bool := true     -- the group record's state is Active
+  accepted : Bool := false  -- (welcome) the welcome record's state is Accepted
   deriving DecidableEq, Repr, Inhabited
 
 /-- labelled storage effects -/
@@ -45,6 +54,11 @@ inductive W where
   | saveGroup | saveRelays | savePw | saveWelcome
   | setPtr              -- the group record's last-message pointer / timestamp is moved to the new message
   | touch               -- a write that does not change the projection (bookkeeping rows)
+  | storeProposal       -- OpenMLS queues a proposal
+  | joinMls             -- OpenMLS stores a new group (StagedWelcome::into_group, MlsGroup::new)
+  | acceptWelcome       -- the welcome record becomes Accepted
+  | activate            -- the group record becomes Active
+  | deactivate          -- the group record becomes Inactive
   deriving DecidableEq, Repr
 
 def applyW (d : Db) : W → Db
@@ -63,6 +77,11 @@ def applyW (d : Db) : W → Db
   | .saveWelcome => { d with welcomeRow := true }
   | .setPtr => { d with ptr := true }
   | .touch => d
+  | .storeProposal => { d with props := d.props + 1 }
+  | .joinMls => { d with mlsGroup := true }
+  | .acceptWelcome => { d with accepted := true }
+  | .activate => { d with active := true }
+  | .deactivate => { d with active := false }
 
 inductive Kind where
   | application         -- process_message of an application message
@@ -71,12 +90,62 @@ inductive Kind where
   | merge               -- merge_pending_commit (local)
   deriving DecidableEq, Repr
 
-/-- the effects of a call, in the order recorded on the real code -/
-def writes : Kind → List W
-  | .application => [.saveSecret, .consume, .saveMsg, .savePm 1, .setPtr]
-  | .commit => [.saveSecret, .consume, .snapshot, .bumpMls, .saveSecret, .syncRecord, .savePm 2]
-  | .welcome => [.saveGroup, .saveRelays, .saveWelcome, .savePw]   -- welcome before its record since /repo fed41a9
-  | .merge => [.dropPending, .bumpMls, .syncRecord]
+/-- the case of `Generated.writeSeq` (codes of tools/writeseq.py `CASES`) a kind of call is -/
+def Kind.case : Kind → Nat
+  | .application => 0
+  | .commit => 1
+  | .welcome => 12
+  | .merge => 23
+
+def lookup (c : Nat) : List (Nat × List (List Nat)) → List (List Nat)
+  | [] => []
+  | (k, v) :: rest => if k = c then v else lookup c rest
+
+/-- the paths of a case as translated from the source -/
+def sourcePaths (c : Nat) : List (List Nat) := lookup c Generated.writeSeq
+
+/-- The effect on the projection of one source-level step (codes of tools/writeseq.py) inside the call `case`.
+    `save_group` (4) is what the call uses it for: the last-message pointer in process_application_message /
+    create_message, the Pending record in process_welcome; OpenMLS's `merge_pending_commit` (42) deletes the
+    pending commit BEFORE it writes the merged state (observed: `tie:crashw-writeseq`); starred steps (≥ 1000:
+    zero or more snapshot releases, retry marks) and key-store writes do not touch the projection. -/
+def effects (case : Nat) : Nat → List W
+  | 1 | 2 => [.saveSecret]
+  | 3 => [.saveMsg]
+  | 4 => if case = 12 ∨ case = 17 then [.saveGroup] else if case = 0 ∨ case = 16 ∨ case = 11 then [.setPtr]
+         else if case = 14 then [.activate] else if case = 15 ∨ case = 2 then [.deactivate] else [.touch]
+  | 5 => [.saveRelays]
+  | 6 => if case = 14 then [.acceptWelcome] else if case = 15 then [.touch] else [.saveWelcome]
+  | 7 => [.savePw]
+  | 8 | 15 => [.snapshot]
+  | 17 => [.syncRecord]
+  | 21 => [.savePm 1]
+  | 22 => [.savePm 2]
+  | 23 => [.savePm 3]
+  | 24 => [.savePm 4]
+  | 25 => [.savePm 5]
+  | 26 => [.savePm 6]
+  | 40 => [.consume]
+  | 41 => [.bumpMls]
+  | 42 => [.dropPending, .bumpMls]
+  | 43 | 50 => [.storeProposal]
+  | 44 | 46 | 47 | 48 | 49 => [.setPending]
+  | 51 | 52 => [.joinMls]
+  | 53 => [.dropPending]
+  | 56 => []                              -- StagedWelcome::build_from_welcome reads the key package (observed: no table changes)
+  | _ => [.touch]
+
+def expand (case : Nat) (p : List Nat) : List W := p.flatMap (effects case)
+
+/-- which of the translated paths a kind follows: the application message that moves the last-message pointer
+    (the longest path), the merge of a commit that is not a pure self-update (the shortest) -/
+def Kind.path (kind : Kind) : List Nat :=
+  match kind with
+  | .merge => (sourcePaths kind.case).getLastD []
+  | _ => (sourcePaths kind.case).headD []
+
+/-- the effects of a call, in the order the SOURCE performs them (regenerated on every run) -/
+def writes (kind : Kind) : List W := expand kind.case kind.path
 
 def run (d : Db) (l : List W) : Db := l.foldl applyW d
 
